@@ -109,6 +109,15 @@ func makeRemoteSource(sourceType string, u *url.URL, subPath string) (RemoteSour
 		return RemoteSource{}, fmt.Errorf("must not use username or password in URL portion")
 	}
 
+	// All of the rules here and below are about the parts of a hierarchical
+	// URL (scheme://host/path?query). A URL in the "opaque" form (scheme:rest)
+	// has none of those parts as far as net/url is concerned: everything after
+	// the colon is kept in u.Opaque and is written back out by u.String as it
+	// is, so a user name and password there would pass the check above.
+	if u.Opaque != "" {
+		return RemoteSource{}, fmt.Errorf("must contain an absolute URL with :// after its scheme")
+	}
+
 	// RemotePackage values are compared with == and used as map keys, so two
 	// URLs that print the same must also be represented the same. A url.URL
 	// can carry detail that does not survive printing: url.Parse keeps a
